@@ -49,6 +49,28 @@ def uninstall_task_scoping() -> None:
         _scoping_installed = False
 
 
+_toggle_probe_installed = False
+_current_rec: Any = None
+
+
+def install_toggle_probe() -> None:
+    """Record every turn of a named kopf Toggle (operator pause/resume, indexing blockers) as a note: observation only."""
+    global _toggle_probe_installed
+    if _toggle_probe_installed:
+        return
+    from kopf._cogs.aiokits import aiotoggles
+    orig = aiotoggles.Toggle.turn_to
+
+    async def turn_to(self: Any, state: bool) -> None:
+        before = self.is_on()
+        await orig(self, state)
+        rec = _current_rec
+        if rec is not None and before != bool(state):
+            rec.note('toggle', inc=op_var.get(), name=self.name, to=bool(state))
+    aiotoggles.Toggle.turn_to = turn_to  # type: ignore[method-assign]
+    _toggle_probe_installed = True
+
+
 class LogCapture(logging.Handler):
     def __init__(self) -> None:
         super().__init__(level=logging.DEBUG)
@@ -216,6 +238,9 @@ class Sim:
         self.loop.set_exception_handler(self._on_loop_error)
         from kv.recorder import Recorder
         self.rec = Recorder(self)
+        global _current_rec
+        _current_rec = self.rec
+        install_toggle_probe()
         self.kube = fakekube.FakeKube(resources if resources is not None else [fakekube.KEX], **kubekw)
         self.incarnations: list[Incarnation] = []
         self._timers: list[asyncio.TimerHandle] = []
